@@ -52,12 +52,19 @@ type FuncContract struct {
 	Asserts  []PointAssert
 	Trusted  bool
 	Inline   bool
+	GhostSets []GhostSet     // ghost assignments performed on entry (specification state updated by this function)
 	Calls    []string        // parameters holding functions the callee may invoke: their write sets are added at call sites
 	Reveal   map[string]bool // opaque spec functions unfolded while verifying this function
 	NoPanic  bool            // claim: no reachable panic instruction / bounds failure
 	Safety   bool            // generate bounds/nil/div obligations
 	File     string
 	Line     int
+}
+
+type GhostSet struct {
+	Var  string
+	E    *Expr
+	Text string
 }
 
 type SpecParam struct {
@@ -115,7 +122,7 @@ func newContractSet() *ContractSet {
 	return &ContractSet{Funcs: map[string]*FuncContract{}, Specs: map[string]*SpecFunc{}, Axioms: map[string]*Axiom{}, Ghosts: map[string]*GhostVar{}}
 }
 
-var keywordRe = regexp.MustCompile(`^(func|property|requires|ensures|modifies|loop|assert|trusted|inline|nopanic|safety|spec|axiom|lemma|invariant|ghost|use|reveal|calls|package)\b`)
+var keywordRe = regexp.MustCompile(`^(func|property|requires|ensures|modifies|loop|assert|trusted|inline|nopanic|safety|spec|axiom|lemma|invariant|ghostset|ghost|use|reveal|calls|package)\b`)
 var labelRe = regexp.MustCompile(`^\[([A-Za-z0-9_.<>=%+\-]+)\]\s*(.*)$`)
 
 func canonFuncName(pkg, decl string) string {
@@ -304,6 +311,19 @@ func (cs *ContractSet) parseFile(path string, defaultPkg string) error {
 			}
 			cur.Trusted = true
 			cs.TrustedList = append(cs.TrustedList, cur.Key+" ("+it.text+")")
+		case "ghostset":
+			if cur == nil {
+				return fmt.Errorf("%s:%d: ghostset outside func", path, it.line)
+			}
+			i := strings.Index(it.text, "=")
+			if i < 0 {
+				return fmt.Errorf("%s:%d: ghostset <var> = <expr>", path, it.line)
+			}
+			e, err := ParseExpr(it.text[i+1:])
+			if err != nil {
+				return fmt.Errorf("%s:%d: %v", path, it.line, err)
+			}
+			cur.GhostSets = append(cur.GhostSets, GhostSet{Var: strings.TrimSpace(it.text[:i]), E: e, Text: it.text})
 		case "calls":
 			if cur == nil {
 				return fmt.Errorf("%s:%d: calls outside func", path, it.line)
